@@ -198,6 +198,8 @@ def build_records(tier, rng):
                 kw[names[i - 1]] = x
         try:
             c = m.copy(**kw)
+            if c is m:
+                raise RuntimeError("copy() returned the message itself")      # a copy is a new message (recorded as a failure)
             C.append([hv, pl, subset, vals, 1, [c.node_id, c.child_id, c.type, c.ack, c.sub_type],
                       conc.syms(c.payload) if isinstance(c.payload, str) else ["?"]])
         except Exception:  # pylint: disable=broad-except
